@@ -35,6 +35,7 @@ class ClassSpec:
         self.base = None
         self.prop_attrs = {}      # (iface, prop) -> attribute name
         self.split_iface = None   # a base-class interface partly implemented here
+        self.mixin = False        # a plain Python mix-in class precedes the DBus base class
 
     def all_ifaces(self):
         out = list(self.ifaces)
@@ -65,6 +66,13 @@ class ClassSpec:
         return None
 
 
+class PlainMixin:
+    """an ordinary Python class in front of the DBus base class (logging helpers and the like)"""
+
+    def describe(self):
+        return 'object at %s' % self.getObjectPath()
+
+
 def nargs(sig):
     from . import refcodec as rc
     return len(rc.split_sig(sig))
@@ -74,6 +82,7 @@ def class_spec(ds, tag, n_ifaces=None, with_base=None, rich=True, props=False):
     """a class contributing 1-2 interfaces (and optionally deriving from a base spec)"""
     cs = ClassSpec('Gen' + tag)
     cs.base = with_base
+    cs.mixin = ds.flag(0.25)
     n = n_ifaces or (1 + ds.choose(2))
     used = set(d.name for d in (with_base.all_ifaces() if with_base else []))
     for i in range(n):
@@ -191,6 +200,9 @@ def build_class(cs, hook, tx_ifaces, extra_attrs=None):
             ns[attr] = t_objects.DBusProperty(pn, d.name)
     if extra_attrs:
         ns.update(extra_attrs)
+    if cs.mixin:
+        mix = type('Mixin' + cs.name, (), {'describe': PlainMixin.describe})
+        return type(cs.name, (mix, base), ns)
     return type(cs.name, (base,), ns)
 
 
